@@ -520,7 +520,7 @@ fn drive(p: &Pools, h: usize, w: usize, clear: bool, ops: &[Op]) -> Option<Vec<V
                 }
             }
             let cmds: Vec<(String, Value)> = term.cmds.iter().map(|c| namer.cmd(c, &drawn)).collect();
-            if !matches!(op, Op::Draw(_) | Op::Clear) {
+            if !matches!(op, Op::Draw(_)) {
                 drawn = blank_surf(h, w);
             }
             out.push(cmds);
@@ -917,9 +917,6 @@ fn stale_session(its: &[It], out: &[(bool, Vec<(String, Value)>)]) -> bool {
             let c = q.pop_front().unwrap();
             apply(&mut placed, &c);
         }
-        if !it.frame {
-            continue;
-        }
         if *dropped {
             q.truncate(it.keep);
             let mut v = placed.clone();
@@ -932,9 +929,14 @@ fn stale_session(its: &[It], out: &[(bool, Vec<(String, Value)>)]) -> bool {
                     stale = true;
                 }
             }
+            last = None; // clear(): the back buffer is blank
         }
-        q.push_back(cmds.iter().map(|(_, j)| j.clone()).collect());
-        last = Some(&it.draw);
+        if !cmds.is_empty() {
+            q.push_back(cmds.iter().map(|(_, j)| j.clone()).collect());
+        }
+        if it.frame {
+            last = Some(&it.draw);
+        }
     }
     stale
 }
@@ -1208,7 +1210,7 @@ fn gen_history(rng: &mut Rng, p: &Pools) -> Value {
                 prev = blank_surf(h2, w2);
             }
             4 => {
-                // the frame-dropping path of run_render: the handler has drawn, then clear(), then frame()
+                // clear() between the drawing and the frame: clear() resets the surface, the frame shows nothing
                 let s = g.next_surface(rng, &prev);
                 prev = s.clone();
                 ops.push(Op::Draw(s));
